@@ -121,17 +121,30 @@ class install(repo_ops.install):
 
 class uninstall(repo_ops.uninstall):
     def __init__(self, repo, pkg, observer):
-        self.remove_path = pjoin(
-            repo.location, pkg.category, pkg.package + "-" + pkg.fullver
-        )
+        base = pjoin(repo.location, pkg.category)
+        dirname = f"{pkg.package}-{pkg.fullver}"
+        self.remove_path = pjoin(base, dirname)
+        # like the install staging dir, ignored when the repo lists its packages
+        self.tmp_remove_path = pjoin(base, f".tmp.{dirname}.old")
         super().__init__(repo, pkg, observer)
 
     def remove_data(self):
         return True
 
+    def _hide_data(self):
+        """Atomically move the entry out of the repo's view.
+
+        Wiping it afterwards can be interrupted at any point without
+        leaving a half removed, still listed, package behind.
+        """
+        # leftovers of an interrupted removal
+        shutil.rmtree(self.tmp_remove_path, ignore_errors=True)
+        os.rename(self.remove_path, self.tmp_remove_path)
+
     def finalize_data(self):
         update_mtime(self.repo.location)
-        shutil.rmtree(self.remove_path)
+        self._hide_data()
+        shutil.rmtree(self.tmp_remove_path)
         update_mtime(self.repo.location)
         return True
 
@@ -148,13 +161,14 @@ class replace(repo_ops.replace, install, uninstall):
         return install.add_data(self, domain)
 
     def finalize_data(self):
-        # XXX: should really restructure this into
-        # a rename of the unmerge dir, rename merge into it's place (for
-        # literal same fullver replacements), then wipe the unmerge
-        # that minimizes the window for races, and gets the data in place
-        # should unmerge somehow die.
-        uninstall.finalize_data(self)
+        # rename the unmerge dir out of the way, rename the merge into its
+        # place, then wipe the unmerge: that minimizes the window in which
+        # neither is visible to the two renames, and an interrupted wipe
+        # can't leave a half removed pkg listed.
+        update_mtime(self.repo.location)
+        self._hide_data()
         install.finalize_data(self)
+        shutil.rmtree(self.tmp_remove_path)
         return True
 
 
